@@ -176,7 +176,8 @@ def run_unit(unit, twin=False, rlimit=None, threads=2, auto_fns=None, _depth=0, 
             if sp.get('is_primary'):
                 fn = _fn_at(g, sp['line_start'])
                 o = g.origin[sp['line_start'] - 1] if 0 < sp['line_start'] <= len(g.origin) else ('?', '', 0)
-                if fn and fn.get('kind') == 'fn' and not fn.get('stubbed') and o[0] == 'repo':
+                in_body = o[0] == 'repo' or (o[0] == 'tmpl' and fn and fn.get('body_start') and sp['line_start'] >= fn['body_start'])
+                if fn and fn.get('kind') == 'fn' and not fn.get('stubbed') and in_body:
                     to_stub.add(fn['id'].replace('#twin', ''))
                     g.stub_reasons[fn['id'].replace('#twin', '')] = 'Verus rejects the body: ' + d.get('message', '')[:300]
     if to_stub and _depth < 4:
